@@ -32,7 +32,8 @@ def payload(i: int) -> bytes:
 # (reaction, when, budget class); budget None = unlimited.  Unlimited: the covering ACK, NAK, silence and the
 # (terminal) ERROR frames; everything else draws on a small per-run budget so that the space stays finite.
 REACTIONS = [
-    ("ack", "now", None), ("ack", "slow", "slow"), ("stale", "now", "stale"), ("nak", "now", None), ("nak", "slow", "slow"),
+    ("ack", "now", None), ("ack", "slow", "slow"), ("stale", "now", "stale"), ("stale-1", "now", "stale"), ("stale+4", "now", "stale"),
+    ("nak", "now", None), ("nak", "slow", "slow"),
     ("silence", "deadline", None), ("ack", "deadline", "coinc"), ("data", "now", "data"), ("error51", "now", None),
     ("error80", "now", None), ("rstack", "now", "rstack"), ("nak+error", "now", "coinc"), ("error51", "deadline", "coinc"),
     ("nak", "deadline", "coinc"),
@@ -97,6 +98,7 @@ class World:
         self.extras_left = params.get("extras", 0)
         self.recs: dict[int, Cur] = {}
         self.recovered = False
+        self.midsend_rstack = False
         self.ended = False
         self.stats = {"data_writes": 0, "retx": 0, "fail": 0, "ok": 0, "raised": 0}
         self.next_idx = 0
@@ -243,6 +245,10 @@ class World:
             return [ref_ash.enc_ack((f + 1) % 8)]
         if name == "stale":
             return [ref_ash.enc_ack(f)]
+        if name == "stale-1":      # an acknowledgement that covers nothing outstanding: ackNum of the previous frame
+            return [ref_ash.enc_ack((f - 1) % 8)]
+        if name == "stale+4":      # ... or far outside the window
+            return [ref_ash.enc_ack((f + 4) % 8)]
         if name == "nak":
             return [ref_ash.enc_nak(f)]
         if name == "data":
@@ -272,7 +278,7 @@ class World:
             c.open = False
             if name == "data":
                 self.ncp_frm = (self.ncp_frm + 1) % 8
-        elif name == "stale":
+        elif name.startswith("stale"):
             c.stale_used = True
         elif name == "nak":
             c.nak_at = now
@@ -347,9 +353,11 @@ class World:
                     continue
                 if when == "deadline" and dl is None:
                     continue
-                if name == "stale" and c.stale_used:
+                if name.startswith("stale") and c.stale_used:
                     continue
                 out.append(((name, when, cls), 0 if (name, when) == ("ack", "now") else 1))
+            if self.midsend_rstack and self.extras_left > 0:
+                out.append((("submit-during-send",), 1))
             return out
         if not all(t.done() for t in self.tasks):
             # a send is waiting although nothing is outstanding: only time can pass
@@ -381,6 +389,11 @@ class World:
             self.loop.call_soon(self.proto.data_received, ref_ash.wire(ref_ash.enc_rstack(0x0B)))
             self.loop.settle()
             self._scan_up()
+        elif label[0] == "submit-during-send":
+            self.extras_left -= 1
+            self._submit()
+            self.loop.settle()
+            self._scan_up()
         elif label[0] == "submit":
             self.extras_left -= 1
             n_before = len(self.tr.writes)
@@ -398,6 +411,8 @@ class World:
             name, when, cls = label
             if cls is not None:
                 self.left[cls] -= 1
+            if name == "rstack":
+                self.midsend_rstack = True
             self._react(name, when)
         self.step_viol = list(self.viol)
 
@@ -425,7 +440,7 @@ class World:
             tuple(round(x, 9) for x in self.loop.pending_timers()),
             c.key(now) if c else None,
             self.prev_frm, self.restart, self.failed, self.fail_reason, self.fail_reports,
-            self.ncp_frm, tuple(sorted(self.left.items())), self.extras_left, self.ended, self.recovered,
+            self.ncp_frm, tuple(sorted(self.left.items())), self.extras_left, self.ended, self.recovered, self.midsend_rstack,
             tuple(sorted((i, r) for i, (r, t) in self.outcomes.items())),
             tuple(t.done() for t in self.tasks),
             self._expect_rstack_up,
